@@ -934,3 +934,380 @@ Proof.
 Qed.
 
 End Select.
+
+(* ================================================================== *)
+(* Part 3 — the theorems on laid-out documents, [model] in closed form, the oracle *)
+
+Lemma loaded d h0 doc : load_doc [] d = (h0, doc) ->
+  Forall (closed (List.length h0) h0) doc /\ map (view h0) doc = d.
+Proof. intros E. apply load_doc_spec in E. tauto. Qed.
+
+Lemma inv0 h0 : inv (List.length h0) h0 h0 [].
+Proof. split; [apply agree_refl|]. split; [lia | constructor]. Qed.
+
+(* the loops over Go objects choose what the value-level description says *)
+Lemma heap_refines d q h0 doc : load_doc [] d = (h0, doc) ->
+  res_view (h_select true h0 doc q) = v_select d q.
+Proof.
+  intros E. destruct (loaded d h0 doc E) as [F M].
+  destruct (h_select true h0 doc q) as [h1 r] eqn:ES.
+  destruct (select_inv _ h0 doc h0 [] q h1 r F (inv0 h0) ES) as [V _]. rewrite V, M. reflexivity.
+Qed.
+
+Lemma views_agree n0 h0 h doc : Forall (closed n0 h0) doc -> agree n0 h0 h ->
+  map (view h) doc = map (view h0) doc.
+Proof.
+  intros F A. induction F as [|sid doc C F IH]; [reflexivity|]. cbn. rewrite IH. f_equal.
+  eapply view_agree; eassumption.
+Qed.
+
+(* C08_private_copy, whole sessions *)
+Lemma session_private d ops h0 doc rs hf : load_doc [] d = (h0, doc) ->
+  session true doc h0 [] ops = (rs, hf) ->
+  rs = map (v_select d) (sel_queries ops)
+  /\ map (view hf) doc = d
+  /\ forall o, o < List.length h0 -> nth_error hf o = nth_error h0 o.
+Proof.
+  intros E ES. destruct (loaded d h0 doc E) as [F M].
+  destruct (session_ref _ h0 doc F ops h0 [] rs hf (inv0 h0) ES) as [R A].
+  split; [rewrite R, M; reflexivity|]. split; [|exact A].
+  rewrite (views_agree _ h0 hf doc F A). exact M.
+Qed.
+
+Lemma closed_reach n h sid : closed n h sid -> forall o, In o (reach h sid) -> o < n.
+Proof.
+  intros [L C] o. unfold reach. cbn [In]. intros [<-|Ho]; [exact L|].
+  destruct (nth_error h sid) as [[| |nm sc lv ov vts st ids g]|]; try contradiction.
+  destruct C as (C1 & C2 & C3 & C4). unfold ptr_fields in Ho. rewrite !in_app_iff, !in_olist in Ho.
+  destruct Ho as [ -> | [ -> | [ -> | -> ] ] ]; assumption.
+Qed.
+
+Lemma handed_out_disjoint d q h0 doc h1 p : load_doc [] d = (h0, doc) ->
+  h_select true h0 doc q = (h1, HSel p) ->
+  (forall o, In o (reach h1 p) -> List.length h0 <= o)
+  /\ (forall sid o, In sid doc -> In o (reach h1 sid) -> o < List.length h0).
+Proof.
+  intros E ES. destruct (loaded d h0 doc E) as [F M].
+  destruct (h_select_ref _ h0 doc h0 q h1 (HSel p) F (agree_refl _ _) (le_n _) ES) as (X & _ & P).
+  destruct (P p eq_refl) as (P1 & P2 & P3). split.
+  - intros o. unfold reach. cbn [In]. intros [<-|Ho]; [exact P1|].
+    destruct (nth_error h1 p) as [ob|]; [|contradiction]. exact (P3 ob eq_refl o Ho).
+  - intros sid o Hs. rewrite Forall_forall in F. apply closed_reach.
+    eapply closed_agree; [apply ext_agree; exact X | exact (F sid Hs)].
+Qed.
+
+(* ---- boolean equalities are reflexive ---- *)
+Lemma amap_eqb_refl a : amap_eqb a a = true.
+Proof.
+  unfold amap_eqb. apply forallb_forall. intros k _. destruct (lookup k a); cbn; [apply String.eqb_refl | reflexivity].
+Qed.
+
+Lemma list_eqb_refl {A} (e : A -> A -> bool) : (forall x, e x x = true) -> forall l, list_eqb e l l = true.
+Proof. intros H l. induction l as [|x t IH]; cbn; [reflexivity|]. rewrite H, IH. reflexivity. Qed.
+
+Lemma stmt_eqb_refl s : stmt_eqb s s = true.
+Proof.
+  unfold stmt_eqb, sigver_eqb. rewrite !String.eqb_refl, !(list_eqb_refl String.eqb String.eqb_refl), amap_eqb_refl.
+  destruct (s_global s); reflexivity.
+Qed.
+
+(* ---- [model] in closed form ---- *)
+Lemma model_eq i :
+  model i =
+  mk_obs (v_select (i_doc i) (i_q1 i)) (v_select (i_doc i) (i_q2 i)) true
+         (if i_ver i && is_oci (i_q1 i) then skipverify_of (v_select (i_doc i) (ver_query (i_q1 i))) else 9%N)
+         (if i_ver i then ver_of (v_select (i_doc i) (ver_query (i_q1 i))) else VNA).
+Proof.
+  unfold model. destruct (load_doc [] (i_doc i)) as [h0 doc] eqn:EL.
+  destruct (loaded _ h0 doc EL) as [F M].
+  rewrite (heap_refines _ (ver_query (i_q1 i)) h0 doc EL).
+  destruct (h_select true h0 doc (i_q1 i)) as [h1 r1] eqn:E1. cbn [fst snd].
+  destruct (select_inv _ h0 doc h0 [] (i_q1 i) h1 r1 F (inv0 h0) E1) as [V1 I1]. rewrite M in V1.
+  set (ptrs := (match r1 with HSel p => [] ++ [p] | HErr _ => [] end)%list) in *.
+  set (h2 := match r1 with HSel p => apply_ws p h1 (i_ws i) | HErr _ => h1 end).
+  assert (I2 : inv (List.length h0) h0 h2 ptrs).
+  { unfold h2, ptrs in *. destruct r1 as [p|e]; [|exact I1]. apply ws_inv; [exact I1 | now left]. }
+  destruct (h_select true h2 doc (i_q2 i)) as [h3 r2] eqn:E2. cbn [fst snd].
+  destruct (select_inv _ h0 doc h2 ptrs (i_q2 i) h3 r2 F I2 E2) as [V2 (A3 & _)]. rewrite M in V2.
+  rewrite V1, V2, (views_agree _ h0 h3 doc F A3), M.
+  rewrite (list_eqb_refl stmt_eqb stmt_eqb_refl). reflexivity.
+Qed.
+
+(* ---- C08_error_kind and the verifier level ---- *)
+Lemma ver_of_err r : ver_of r = VNoPolicy <-> is_err r = true.
+Proof.
+  destruct r as [s|e]; cbn; [|tauto]. destruct (is_skip s); split; discriminate.
+Qed.
+
+Lemma skipverify_of_err r : skipverify_of r = 0%N <-> is_err r = true.
+Proof.
+  destruct r as [s|e]; cbn; [|tauto]. destruct (is_skip s); split; discriminate.
+Qed.
+
+(* ---- the oracle ---- *)
+Definition rp (l : list (string * string)) : option string :=
+  match filter (fun pq => negb (contains_byte "@" (snd pq))) l with
+  | pq :: _ => Some (fst pq)
+  | [] => None
+  end.
+
+Lemma rp_map a l :
+  rp (map (fun pq => (String a (fst pq), snd pq)) l) = option_map (String a) (rp l).
+Proof.
+  unfold rp. induction l as [|[x y] t IH]; [reflexivity|]. cbn [map filter fst snd].
+  destruct (negb (contains_byte "@" y)); [reflexivity | exact IH].
+Qed.
+
+Lemma ref_path_last_at ref : ref_path ref = last_at ref.
+Proof.
+  change (ref_path ref) with (rp (at_splits ref)).
+  induction ref as [|a s IH]; [reflexivity|]. cbn [at_splits last_at].
+  destruct (Ascii.eqb a "@") eqn:Ea.
+  - cbn [app]. unfold rp at 1. cbn [filter snd].
+    destruct (contains_byte "@" s) eqn:Ec; cbn [negb].
+    + fold (rp (map (fun pq => (String a (fst pq), snd pq)) (at_splits s))). rewrite rp_map, IH.
+      destruct (last_at s) as [p|] eqn:El; [reflexivity|]. apply last_at_none in El. congruence.
+    + apply last_at_none in Ec. rewrite Ec. reflexivity.
+  - cbn [app]. rewrite rp_map, IH. destruct (last_at s); reflexivity.
+Qed.
+
+Lemma find_existsb {A} (f : A -> bool) d :
+  match find f d with
+  | Some s => existsb f d = true /\ In s d /\ f s = true
+  | None => existsb f d = false
+  end.
+Proof.
+  induction d as [|a t IH]; cbn; [reflexivity|]. destruct (f a) eqn:Fa; cbn.
+  - split; [reflexivity|]. split; [now left | exact Fa].
+  - destruct (find f t); [|exact IH]. destruct IH as (H1 & H2 & H3). split; [exact H1|]. split; [now right | exact H3].
+Qed.
+
+Lemma res_in_intro f d s : In s d -> f s = true -> res_in f d (RSel s) = true.
+Proof.
+  intros Hs Fs. cbn. rewrite Fs. cbn. apply existsb_exists. exists s. split; [exact Hs | apply stmt_eqb_refl].
+Qed.
+
+Lemma found_ok f d e :
+  (if existsb f d then res_in f d (match find f d with Some s => RSel s | None => RErr e end)
+   else is_err (match find f d with Some s => RSel s | None => RErr e end)) = true.
+Proof.
+  pose proof (find_existsb f d) as H. destruct (find f d) as [s|].
+  - destruct H as (H1 & H2 & H3). rewrite H1. apply res_in_intro; assumption.
+  - rewrite H. reflexivity.
+Qed.
+
+Lemma sel_ok_select d q : valid_doc d = true -> sel_ok d q (v_select d q) = true.
+Proof.
+  intros VD. pose proof (valid_doc_valid d VD) as V. destruct q as [ref|n|]; unfold sel_ok.
+  - rewrite ref_path_last_at. destruct (last_at ref) as [p|] eqn:L.
+    2:{ cbn. unfold v_oci. rewrite L. reflexivity. }
+    destruct (scope_ok p) eqn:S; cbn [negb].
+    2:{ cbn. unfold v_oci. rewrite L, S. reflexivity. }
+    unfold v_select. rewrite (v_oci_find d ref p V L S).
+    pose proof (find_existsb (has_scope p) d) as Hp. destruct (find (has_scope p) d) as [s|].
+    + destruct Hp as (H1 & H2 & H3). rewrite H1. apply res_in_intro; assumption.
+    + rewrite Hp. apply found_ok.
+  - unfold v_select, v_name. destruct (blank n); [reflexivity|]. apply found_ok.
+  - unfold v_select, v_global. apply found_ok.
+Qed.
+
+Lemma sel_ok_err d q e e' : sel_ok d q (RErr e) = sel_ok d q (RErr e').
+Proof.
+  destruct q as [ref|n|]; unfold sel_ok; cbn [is_err res_in]; reflexivity.
+Qed.
+
+Lemma legit_intro d q (f : stmt -> bool) s : valid_doc d = true ->
+  v_select d q = RSel s -> f s = true -> legit d q f = true.
+Proof.
+  intros VD E Fs. unfold legit. apply existsb_exists. exists s. split; [eapply select_in; exact E|].
+  rewrite <- E, (sel_ok_select d q VD), Fs. reflexivity.
+Qed.
+
+Lemma opt_str_eqb_refl o : opt_eqb String.eqb o o = true.
+Proof. destruct o; cbn; [apply String.eqb_refl | reflexivity]. Qed.
+
+Lemma ver_ok_select d q (b : bool) : valid_doc d = true ->
+  ver_ok d q (if b then skipverify_of (v_select d (ver_query q)) else 9%N)
+            (ver_of (v_select d (ver_query q))) = true.
+Proof.
+  intros VD. unfold ver_ok. pose proof (sel_ok_select d (ver_query q) VD) as SO.
+  destruct (v_select d (ver_query q)) as [s|e] eqn:E.
+  - cbn [ver_of skipverify_of]. destruct (is_skip s) eqn:K.
+    + rewrite (legit_intro d _ is_skip s VD E K). destruct b; reflexivity.
+    + rewrite (legit_intro d _ (fun s0 => negb (is_skip s0) && opt_eqb String.eqb (first_ca (s_stores s0)) (first_ca (s_stores s))) s VD E)
+        by (rewrite K, opt_str_eqb_refl; reflexivity).
+      destruct b; [|reflexivity]. cbn.
+      apply (legit_intro d _ (fun s0 => negb (is_skip s0)) s VD E). rewrite K. reflexivity.
+  - cbn [ver_of skipverify_of]. rewrite (sel_ok_err d _ 0 e), SO. destruct b; reflexivity.
+Qed.
+
+Lemma model_spec_ok i : wf i = true -> spec_ok i (model i) = true.
+Proof.
+  unfold wf. intros VD. rewrite model_eq. unfold spec_ok. cbn [o_r1 o_r2 o_same o_sv o_ver].
+  rewrite !(sel_ok_select _ _ VD). cbn [andb].
+  destruct (i_ver i) eqn:Ev; cbn [andb negb orb].
+  - rewrite (ver_ok_select _ _ (is_oci (i_q1 i)) VD). cbn [andb].
+    destruct (v_select (i_doc i) (ver_query (i_q1 i))) as [s|e]; cbn; [destruct (is_skip s)|]; reflexivity.
+  - unfold ver_ok. reflexivity.
+Qed.
+
+(* ---- never by tag or case folding: the repository part has a fixed alphabet ---- *)
+Lemma contains_byte_bytes c s : contains_byte c s = true -> In (N_of_ascii c) (bytes s).
+Proof.
+  unfold bytes. induction s as [|a s IH]; cbn; [discriminate|]. intros H.
+  apply orb_true_iff in H. destruct H as [H|H]; [left; apply Ascii.eqb_eq in H; now subst | right; auto].
+Qed.
+
+Lemma repo_alphabet d p dom repo dg c : contains_byte "@" dg = false ->
+  cut_byte "/" p = Some (dom, repo) -> contains_byte c repo = true ->
+  in_alphabet (core gen_re_repository) (N_of_ascii c) = false ->
+  v_select d (QOci (p ++ "@" ++ dg)) = RErr 2.
+Proof.
+  intros Hd Hc Hr Ha. apply bad_path_refused; [exact Hd|]. unfold scope_ok.
+  destruct (longer_than_1 p && contains_byte "*" p); [reflexivity|]. rewrite Hc.
+  destruct (matches gen_re_repository repo) eqn:M; [|rewrite !andb_false_r; reflexivity].
+  exfalso. apply matches_alphabet in M. rewrite Forall_forall in M.
+  specialize (M _ (contains_byte_bytes _ _ Hr)). cbv beta in M. congruence.
+Qed.
+
+Lemma colon_not_repo : in_alphabet (core gen_re_repository) (N_of_ascii ":") = false.
+Proof. vm_compute. reflexivity. Qed.
+
+Lemma upper_not_repo c : ((65 <=? N_of_ascii c) && (N_of_ascii c <=? 90))%N = true ->
+  in_alphabet (core gen_re_repository) (N_of_ascii c) = false.
+Proof.
+  destruct c as [[] [] [] [] [] [] [] []]; vm_compute; intros H; first [reflexivity | discriminate H].
+Qed.
+
+(* ---- the copy that shares the override map (the code before fix 355ef9e) is not private ---- *)
+Definition shallow_doc : list stmt :=
+  [mk_stmt "p" ["reg.io/a"] (mk_sv "strict" [("revocation", "log")] "") ["ca:k"] ["*"] false].
+Definition shallow_ops : list op :=
+  [OSel (QOci "reg.io/a@sha256:0"); OWr 0 (WMapSet "revocation" "skip"); OSel (QOci "reg.io/a@sha256:0")].
+
+Lemma shallow_refuted :
+  exists d ops h0 doc, valid_doc d = true /\ load_doc [] d = (h0, doc) /\
+    fst (session false doc h0 [] ops) <> map (v_select d) (sel_queries ops).
+Proof.
+  exists shallow_doc, shallow_ops. eexists. eexists. split; [reflexivity|]. split; [vm_compute; reflexivity|].
+  vm_compute. intros H. discriminate H.
+Qed.
+
+(* ================================================================== *)
+(* Part 4 — the statements of the property, on the correspondence model [model] *)
+
+Lemma m_selects i p dg :
+  wf i = true -> i_q1 i = QOci (p ++ "@" ++ dg) -> contains_byte "@" dg = false -> scope_ok p = true ->
+  let d := i_doc i in
+  let r := o_r1 (model i) in
+  (forall s, In s d -> In p (s_scopes s) ->
+     r = RSel s /\ forall s', In s' d -> In p (s_scopes s') -> s' = s)
+  /\ ((forall s, In s d -> ~ In p (s_scopes s)) ->
+      (forall w, In w d -> In wildcard (s_scopes w) ->
+         r = RSel w /\ s_scopes w = [wildcard] /\
+         forall w', In w' d -> In wildcard (s_scopes w') -> w' = w)
+      /\ ((forall s, In s d -> ~ In wildcard (s_scopes s)) -> r = RErr 3)).
+Proof. intros W Q. rewrite model_eq, Q. exact (selects (i_doc i) p dg W). Qed.
+
+Lemma reference_shape ref p :
+  last_at ref = Some p <-> exists dg, ref = p ++ "@" ++ dg /\ contains_byte "@" dg = false.
+Proof. split; [apply last_at_some|]. intros (dg & -> & H). apply last_at_app. exact H. Qed.
+
+Lemma m_malformed_refused i ref :
+  i_q1 i = QOci ref ->
+  (contains_byte "@" ref = false -> o_r1 (model i) = RErr 1)
+  /\ (forall p dg, ref = p ++ "@" ++ dg -> contains_byte "@" dg = false -> scope_ok p = false ->
+        o_r1 (model i) = RErr 2).
+Proof.
+  intros Q. rewrite model_eq, Q. split.
+  - apply no_at_refused.
+  - intros p dg -> H S. apply bad_path_refused; assumption.
+Qed.
+
+Lemma m_exact i ref s :
+  i_q1 i = QOci ref -> o_r1 (model i) = RSel s ->
+  exists p, last_at ref = Some p /\ scope_ok p = true /\ In s (i_doc i) /\
+    (In p (s_scopes s) \/
+     (In wildcard (s_scopes s) /\
+      forall s', In s' (i_doc i) -> In wildcard (s_scopes s') \/ ~ In p (s_scopes s'))).
+Proof. intros Q. rewrite model_eq, Q. apply exact. Qed.
+
+Lemma m_no_near_miss i p dg s :
+  i_q1 i = QOci (p ++ "@" ++ dg) -> contains_byte "@" dg = false ->
+  (forall x, In x (s_scopes s) -> x <> p) -> ~ In wildcard (s_scopes s) ->
+  o_r1 (model i) <> RSel s.
+Proof.
+  intros Q Hd Hne Hw E. destruct (m_exact i _ s Q E) as (p' & L & _ & _ & [H|[H _]]).
+  - rewrite (last_at_app p dg Hd) in L. inversion L; subst. exact (Hne _ H eq_refl).
+  - exact (Hw H).
+Qed.
+
+Lemma m_tag_or_upper_refused i p dom repo dg c :
+  i_q1 i = QOci (p ++ "@" ++ dg) -> contains_byte "@" dg = false ->
+  cut_byte "/" p = Some (dom, repo) -> contains_byte c repo = true ->
+  (c = ":"%char \/ ((65 <=? N_of_ascii c) && (N_of_ascii c <=? 90))%N = true) ->
+  o_r1 (model i) = RErr 2.
+Proof.
+  intros Q Hd Hc Hr Hk. rewrite model_eq, Q.
+  apply (repo_alphabet (i_doc i) p dom repo dg c Hd Hc Hr).
+  destruct Hk as [->|Hk]; [exact colon_not_repo | exact (upper_not_repo c Hk)].
+Qed.
+
+Lemma m_order i i' :
+  wf i = true -> Permutation (i_doc i) (i_doc i') -> i_q1 i' = i_q1 i ->
+  o_r1 (model i') = o_r1 (model i).
+Proof. intros W P Q. rewrite !model_eq, Q. exact (order (i_doc i) (i_doc i') (i_q1 i) W P). Qed.
+
+Lemma m_blob_name i n :
+  wf i = true -> i_q1 i = QName n -> blank n = false ->
+  let d := i_doc i in
+  let r := o_r1 (model i) in
+  (forall s, In s d -> s_name s = n ->
+     r = RSel s /\ forall s', In s' d -> s_name s' = n -> s' = s)
+  /\ ((forall s, In s d -> s_name s <> n) -> r = RErr 5).
+Proof. intros W Q. rewrite model_eq, Q. exact (blob_name (i_doc i) n W). Qed.
+
+Lemma m_blob_blank_or_exact i n :
+  i_q1 i = QName n ->
+  (blank n = true -> o_r1 (model i) = RErr 4)
+  /\ (forall s, o_r1 (model i) = RSel s -> In s (i_doc i) /\ s_name s = n /\ blank n = false).
+Proof. intros Q. rewrite model_eq, Q. split; [apply blob_blank | apply blob_name_exact]. Qed.
+
+Lemma m_blob_global i :
+  wf i = true -> i_q1 i = QGlobal ->
+  let d := i_doc i in
+  let r := o_r1 (model i) in
+  (forall s, In s d -> s_global s = true ->
+     r = RSel s /\ forall s', In s' d -> s_global s' = true -> s' = s)
+  /\ ((forall s, In s d -> s_global s = false) -> r = RErr 6).
+Proof. intros W Q. rewrite model_eq, Q. exact (blob_global (i_doc i) W). Qed.
+
+Lemma m_blob_no_name_is_global i :
+  i_ver i = true -> i_q1 i = QName "" ->
+  o_ver (model i) = ver_of (v_select (i_doc i) QGlobal).
+Proof. intros V Q. rewrite model_eq, Q, V. reflexivity. Qed.
+
+Lemma m_later_selection_unaffected d acc q1 ws q2 ver :
+  o_r2 (model (mk_input d acc q1 ws q2 ver)) = o_r1 (model (mk_input d acc q2 [] q2 ver))
+  /\ o_same (model (mk_input d acc q1 ws q2 ver)) = true.
+Proof. rewrite !model_eq. split; reflexivity. Qed.
+
+Lemma m_error_kind i :
+  i_ver i = true -> ver_query (i_q1 i) = i_q1 i ->
+  (o_ver (model i) = VNoPolicy <-> is_err (o_r1 (model i)) = true)
+  /\ (is_oci (i_q1 i) = true -> (o_sv (model i) = 0%N <-> is_err (o_r1 (model i)) = true))
+  /\ o_ver (model i) = ver_of (o_r1 (model i)).
+Proof.
+  intros V Q. rewrite model_eq, V, Q. cbn [o_ver o_sv o_r1 andb]. split; [apply ver_of_err|].
+  split; [|reflexivity]. intros O. rewrite O. apply skipverify_of_err.
+Qed.
+
+(* ---- concrete documents for the non-vacuity examples ---- *)
+Definition ex_sv := mk_sv "strict" [("revocation", "log")] "".
+Definition ex_doc : list stmt :=
+  [mk_stmt "ab" ["reg.io/a/b"; "reg.io:80/a/b"] ex_sv ["ca:k0"] ["*"] false;
+   mk_stmt "abc" ["reg.io/a/b/c"] ex_sv ["ca:k1"] ["*"] false;
+   mk_stmt "any" ["*"] (mk_sv "audit" [] "") ["ca:k2"] ["*"] false].
+Definition ex_blob : list stmt :=
+  [mk_stmt "b0" [] ex_sv ["ca:k0"] ["*"] false;
+   mk_stmt "B0" [] ex_sv ["ca:k1"] ["*"] true].
